@@ -49,7 +49,9 @@ def Ex.assemble (subs : List Ex) (p : Pt) (st : Nat → List Cell) : Ex → List
   | .bounded w lo hi => match (Ex.bounded w lo hi).matchIdx subs with
       | some i => st i
       | none => w.assemble subs p st
-  | .unary _ w => w.assemble subs p st
+  | .unary u w => match (Ex.unary u w).matchIdx subs with
+      | some i => st i
+      | none => w.assemble subs p st
   | .shift w off => (Ex.shift w off).empty
   | .ptile id v pe n => (Ex.ptile id v pe n).empty
 
